@@ -163,13 +163,17 @@ class TreeFn(Generic[_FnT, _T]):
         tree.apply_mask,
         replace_false_with=self.replace_mask_false_with,
     )
+    # A literal input is a constant, not a batch of rows: it is never masked.
+    is_literal = [isinstance(key, tree.Literal) for key in self.input_keys]
     match self.masks:
       case (mask,):
-        for item in items:
-          result.append(apply_mask_fn(item, masks=mask))
+        for item, literal in zip(items, is_literal, strict=True):
+          result.append(item if literal else apply_mask_fn(item, masks=mask))
       case (_, *_):
-        for item, mask in zip(items, self.masks, strict=True):
-          result.append(apply_mask_fn(item, masks=mask))
+        for item, mask, literal in zip(
+            items, self.masks, is_literal, strict=True
+        ):
+          result.append(item if literal else apply_mask_fn(item, masks=mask))
     return tuple(result)
 
   def _normalize_outputs(
